@@ -16,12 +16,19 @@ trait DevElem: Clone + PartialEq + PartialOrd + Signed + AddAssign + ToPrimitive
     const IS_FLOAT: bool;
     fn mk(d: u8) -> Self;
     fn rat(&self) -> Rat;
+    /// a second peak value for the signal-to-noise ratio: one that f32 cannot hold exactly
+    fn peak2() -> Self {
+        Self::mk(3)
+    }
 }
 impl DevElem for i32 {
     const NAME: &'static str = "i32";
     const IS_FLOAT: bool = false;
     fn mk(d: u8) -> i32 {
         [-3, 0, 1, 4][d as usize]
+    }
+    fn peak2() -> i32 {
+        16_777_217
     }
     fn rat(&self) -> Rat {
         Rat::from_i(*self as i128)
@@ -33,6 +40,9 @@ impl DevElem for i64 {
     fn mk(d: u8) -> i64 {
         [-3_000_000, 0, 1, 4_000_000][d as usize]
     }
+    fn peak2() -> i64 {
+        4_000_000_001
+    }
     fn rat(&self) -> Rat {
         Rat::from_i(*self as i128)
     }
@@ -42,6 +52,9 @@ impl DevElem for f64 {
     const IS_FLOAT: bool = true;
     fn mk(d: u8) -> f64 {
         [-1.5, 0.0, 0.1, 2.0][d as usize]
+    }
+    fn peak2() -> f64 {
+        0.1
     }
     fn rat(&self) -> Rat {
         Rat::from_f64(*self)
@@ -185,6 +198,12 @@ fn run1<A: DevElem>(c: &Case1, lx: &mut Local) {
         let mut h = 0;
         match measure(&ha.view(), &hb.view(), maxv.clone()) {
             Ok(m) => h = judge(&m, &w, &maxv, &ctx, lx),
+            Err(e) => lx.fail("C09/failed", || format!("[{}] {}; {}", A::NAME, e, ctx())),
+        }
+        // the same with a peak value that is not exactly representable in f32
+        let peak2 = A::peak2();
+        match measure(&ha.view(), &hb.view(), peak2.clone()) {
+            Ok(m) => h ^= judge(&m, &w, &peak2, &ctx, lx).rotate_left(7),
             Err(e) => lx.fail("C09/failed", || format!("[{}] {}; {}", A::NAME, e, ctx())),
         }
         // symmetry
@@ -549,6 +568,33 @@ fn run_nonfinite<T: num_traits::Float + Debug + std::ops::AddAssign + num_traits
     });
 }
 
+/// Very long operands (stride-0 broadcast views, so no memory is needed): counts beyond 2^16 and
+/// element counts that f32 cannot hold exactly.
+fn run_long(n: usize, lx: &mut Local) {
+    lx.single(|lx| {
+        let (one, zero) = (ndarray::arr0(1.0f64), ndarray::arr0(0.0f64));
+        let (a, b) = (one.broadcast(n).unwrap(), zero.broadcast(n).unwrap());
+        let (ione, izero) = (ndarray::arr0(1i64), ndarray::arr0(0i64));
+        let (ia, ib) = (ione.broadcast(n).unwrap(), izero.broadcast(n).unwrap());
+        let nf = n as f64;
+        let r = guarded(|| (a.count_eq(&a), a.count_eq(&b), a.count_neq(&b), a.sq_l2_dist(&b), a.l1_dist(&b), a.linf_dist(&b), a.mean_abs_err(&b), a.mean_sq_err(&b), a.root_mean_sq_err(&b), a.peak_signal_to_noise_ratio(&b, 10.0), ia.count_eq(&ia), ia.sq_l2_dist(&ib)));
+        match r {
+            Ok((Ok(ceq_self), Ok(ceq), Ok(cneq), Ok(sq), Ok(l1), Ok(linf), Ok(mae), Ok(mse), Ok(rmse), Ok(psnr), Ok(iceq), Ok(isq))) => {
+                lx.check(ceq_self == n && ceq == 0 && cneq == n && iceq == n, "C09/count-eq", || format!("{} elements: count_eq(a,a) = {}, count_eq(a,b) = {}, count_neq(a,b) = {}, integer count_eq(a,a) = {}", n, ceq_self, ceq, cneq, iceq));
+                lx.check(sq == nf && l1 == nf && linf == 1.0 && isq == n as i64, "C09/sq-l2", || format!("{} elements (ones against zeros): sq_l2 = {}, l1 = {}, linf = {}, integer sq_l2 = {}", n, sq, l1, linf, isq));
+                let tol = 8.0 * f64::EPSILON;
+                lx.check((mae - 1.0).abs() <= tol && (mse - 1.0).abs() <= tol && (rmse - 1.0).abs() <= tol, "C09/mean-sq-err", || format!("{} elements (ones against zeros): mean_abs_err = {:e}, mean_sq_err = {:e}, root_mean_sq_err = {:e}, each exactly 1", n, mae, mse, rmse));
+                lx.check((psnr - 20.0).abs() <= 1e-12, "C09/psnr", || format!("{} elements: psnr(maxv 10) = {:e}, expected 20", n, psnr));
+                hash_of(&(ceq_self, sq.to_bits(), mse.to_bits()))
+            }
+            other => {
+                lx.fail("C09/failed", || format!("{} elements: {:?}", n, other.map(|_| ())));
+                0
+            }
+        }
+    });
+}
+
 fn main() {
     let mut rep = Report::new("C09");
     rep.rule = "case = (operand a, operand b over a 4-value alphabet, element type) with a rotating stride pair (1-D); (shape, layout of a, layout of b, fill, ownership pair, type) in n-D; non-trivial = at least 2 elements".into();
@@ -709,6 +755,15 @@ fn main() {
                 2 => runn::<f64>(c, lx),
                 _ => runn::<BigInt>(c, lx),
             }
+        },
+    );
+    rep.run_sub(
+        "very-long-operands",
+        "stride-0 broadcast views of 65535, 65536, 65537, 70000 and 2^24 + 1 elements (ones against zeros, and against themselves; f64 and i64): counts, sums and the /n measures are exact",
+        vec![65535usize, 65536, 65537, 70000, (1 << 24) + 1].into_iter(),
+        |n, lx| {
+            lx.nontrivial(true);
+            run_long(*n, lx)
         },
     );
     // infinite elements and squares that overflow
